@@ -917,11 +917,26 @@ func scenarioTypes(seed int64, idle, frame time.Duration) *verdict {
 	for id := uint32(1); id <= names+10 && v == nil; id++ {
 		r := rid()
 		c.send(&hagallpb.EntityComponentTypeGetNameRequest{Type: hagallpb.MsgType_MSG_TYPE_ENTITY_COMPONENT_TYPE_GET_NAME_REQUEST, Timestamp: now(), RequestId: r, EntityComponentTypeId: id})
-		m, ok := c.waitFor(hagallpb.MsgType_MSG_TYPE_ENTITY_COMPONENT_TYPE_GET_NAME_RESPONSE, 300*time.Millisecond, func(m hwebsocket.Msg) bool {
-			var resp hagallpb.EntityComponentTypeGetNameResponse
-			m.DataTo(&resp)
-			return resp.RequestId == r
-		})
+		// answered with the name, or refused (no such id): either way an answer carrying the request id - however loaded
+		// the machine is
+		var m hwebsocket.Msg
+		ok := false
+		for deadline := time.Now().Add(5 * time.Second); time.Now().Before(deadline); time.Sleep(2 * time.Millisecond) {
+			if m, ok = c.waitFor(hagallpb.MsgType_MSG_TYPE_ENTITY_COMPONENT_TYPE_GET_NAME_RESPONSE, 0, func(m hwebsocket.Msg) bool {
+				var resp hagallpb.EntityComponentTypeGetNameResponse
+				m.DataTo(&resp)
+				return resp.RequestId == r
+			}); ok {
+				break
+			}
+			if _, refused := c.waitFor(hagallpb.MsgType_MSG_TYPE_ERROR_RESPONSE, 0, func(m hwebsocket.Msg) bool {
+				var resp hagallpb.ErrorResponse
+				m.DataTo(&resp)
+				return resp.RequestId == r
+			}); refused {
+				break
+			}
+		}
 		if !ok {
 			continue // no such id
 		}
